@@ -24,6 +24,8 @@ mod main_trait;
 mod param;
 mod superset;
 mod validate;
+#[cfg(all(test, disjoint_impls_verif))]
+mod verif_driver;
 
 // TODO: Remove this and implement proper Ord
 #[derive(Debug, Clone)]
